@@ -179,6 +179,11 @@ func (in *Interp) recordHashApp(name string, t *Term) {
 // (mode 1: collision freedom; mode 2: plus node-hash separation).
 func (in *Interp) pairAxioms(k, mode int) *Term {
 	st := in.st
+	// the axioms must mention the raw equalities: with the structural rewrites on, "H(a)=H(b) => a=b" would
+	// be folded to "a=b => a=b" and say nothing about comparisons that go through bytes of the outputs
+	ih, ns := st.idealHash, st.nodeSep
+	st.idealHash, st.nodeSep = false, false
+	defer func() { st.idealHash, st.nodeSep = ih, ns }()
 	l, _ := in.extra["hashapps"].([]hashAppRec)
 	ax := in.hashNonZero(l[k].t)
 	P := st.ConstBig(256, feltP)
@@ -209,6 +214,9 @@ func (in *Interp) pairAxioms(k, mode int) *Term {
 // With nodeDomSep, additionally the Starknet node-hash domain separation ped(a,b)+l ≠ ped(c,d)+l' unless same.
 func (in *Interp) collisionFreeAxioms() *Term {
 	st := in.st
+	ih, ns := st.idealHash, st.nodeSep
+	st.idealHash, st.nodeSep = false, false
+	defer func() { st.idealHash, st.nodeSep = ih, ns }()
 	l, _ := in.extra["hashapps"].([]hashAppRec)
 	ax := st.True
 	for i := 0; i < len(l); i++ {
@@ -236,6 +244,9 @@ func (in *Interp) collisionFreeAxioms() *Term {
 // that an edge hash cannot coincide with another node's hash unless it is the same node.
 func (in *Interp) nodeHashSeparationAxioms() *Term {
 	st := in.st
+	ih, ns := st.idealHash, st.nodeSep
+	st.idealHash, st.nodeSep = false, false
+	defer func() { st.idealHash, st.nodeSep = ih, ns }()
 	l, _ := in.extra["hashapps"].([]hashAppRec)
 	ax := st.True
 	P := st.ConstBig(256, feltP)
